@@ -1,5 +1,5 @@
 """C03 — no UB, crash or panic through the safe API (DESIGN §4 C03)."""
-from ..engines import ranges, dispatch_rules, validators, index_rules
+from ..engines import ranges, dispatch_rules, validators, index_rules, witness
 from ..progs import programs
 
 
@@ -38,9 +38,21 @@ def arith(rep, prog, rule, only=None):
 
 def run(rep, tier):
     cfgs = ["x86", "x86-rayon"] if tier == "quick" else ["x86", "x86-rayon", "arm", "wasm"]
+    if tier == "thorough":
+        rep.set_cfg("witness")
+        witness.report(rep, "C03.types", ["W1", "W2", "W7"])
     for cfg, prog in programs(cfgs):
         rep.set_cfg(cfg)
         if cfg == "wasm":
             continue   # 32-bit usize: informational only (DESIGN Appendix B, scope decisions)
         n = arith(rep, prog, "C03.arith")
         rep.floor("C03.arith", "arithmetic asserts in scope", n, 100)
+        validators.crop_f64(rep, prog, "C03.crop-validate")
+        validators.crop_u32(rep, prog, "C03.crop-validate-u32")
+        validators.constructors_validate(rep, prog, "C03.invariants")
+        index_rules.nearest_index(rep, prog, "C03.index-nearest")
+        index_rules.cropped_row_slices(rep, prog, "C03.index-rows")
+        index_rules.table_index(rep, prog, "C03.table-index")
+        index_rules.unwraps(rep, prog, "C03.unwrap")
+        dispatch_rules.t_precision(rep, prog, "C03.precision", report_empty=False)
+        dispatch_rules.t_feature(rep, prog, "C03.feature")
